@@ -20,14 +20,24 @@ var progress atomic.Int64
 
 func TestMain(m *testing.M) {
 	run = vk.Start("C11", "exploration")
-	run.Rule("event sequences over {Up,Down,Open,Close,restart-timer expiry, RCR acceptable/nak-able/rejectable/mixed, RCA/RCN/RCJ with current and stale identifier, RTR, RTA, unknown code, LCP code-/protocol-reject, echo 0/3/4/8 bytes, and each packet kind delivered while the restart timer fires (handler held inside the automaton's lock across the timer instant)} against the real LCP, IPCP and IPv6CP automata in virtual time: breadth-first with fingerprint (state, monitor booleans, restart counter, timer) to a fixed point or the depth bound, option contents seeded-random, plus seeded random walks with partial time advances; every sequence ends with a silent-peer run. non-trivial = distinct sequence in which the automaton sent a Configure-Request and a delivered packet moved it to another state (the negotiation code was reached)")
+	run.Rule("event sequences over {Up,Down,Open,Close,restart-timer expiry, RCR acceptable/nak-able/rejectable/mixed, RCA/RCN/RCJ carrying each of: the identifier of the automaton's latest Configure-Request (cur), of an older Configure-Request (old), of the latest packet it originated that is not a Configure-Request - Code-Reject, Protocol-Reject, Echo-Request, Terminate-Request - (nc), an identifier it never used (new), RCA cur with altered options, RTR, RTA, unimplemented code (LCP answers Code-Reject), peer Code-Reject critical/other, and for LCP: peer Protocol-Reject LCP/other, echo 0/3/4/8 bytes, Discard, SendProtocolReject by the server, SendEchoRequest, one keep-alive ticker tick (SessionKeepAlive in virtual time); and reply/request/terminate packets delivered while the restart timer fires (handler held inside the automaton's lock across the timer instant)} against the real LCP, IPCP and IPv6CP automata in virtual time: breadth-first with fingerprint (state, monitor booleans, restart counter, timer, identifier situation: older-request id exists, non-Configure packet sent before/after the latest request) to a fixed point or the depth bound, option contents seeded-random, plus seeded random walks with partial time advances; every sequence ends with a silent-peer run. All identifiers and option lists used for peer replies are taken from the packets the automaton handed to the send callback. non-trivial = distinct sequence in which the automaton sent a Configure-Request and a delivered packet moved it to another state (the negotiation code was reached), or distinct (automaton, state, reply kind, identifier class) in which a reply with a non-matching identifier reached the identifier check")
 	run.Assume("the restart timer is armed when a Configure-/Terminate-Request is handed to the send callback (used only to aim the timer-vs-packet schedules, not by any oracle clause)")
-	run.Assume("a Configure-Ack whose identifier matches the latest request counts as the peer's acknowledgement whatever its option bytes (the anchor's mechanism: identifier match)")
+	run.Assume("a Configure-Ack whose identifier matches the latest request counts as the peer's acknowledgement whatever its option bytes (the anchor's mechanism: identifier match; RFC 1661 5.2 would also let the automaton discard an Ack whose options differ, so both behaviours are accepted and the altered-options Ack is only counted)")
 	run.Assume("packets the automaton's parser refuses with an error are not events of the property's alphabet and are not generated")
+	run.Assume("VerifC11RestartCount/VerifC11TimerSet return the automaton's restart counter and whether its restart timer field is set; the non-matching-reply clause uses them to see that a discarded reply neither reset the counter nor touched the timer")
+	run.Assume("a Configure-Ack/-Nak/-Reject delivered before the automaton ever sent a Configure-Request has no identifier to match; what the automaton does with it is not judged by the discard clause (Opened is still judged)")
 	run.Floor("silence_runs", 2000)
 	run.Floor("opened_observations", 100)
 	run.Floor("replies_judged", 1000)
 	run.Floor("race_timer_ran_after_handler", 10)
+	run.Floor("mismatched_reply_discard_judged", 2000)
+	run.Floor("mismatched_reply_while_nonconfigure_packet_sent_after_latest_request", 200)
+	run.Floor("mismatched_reply_with_id_of_that_nonconfigure_packet_in_Ack-Sent", 20)
+	run.Floor("mismatched_reply_with_id_of_that_nonconfigure_packet_in_Req-Sent", 20)
+	run.Floor("mismatched_reply_with_id_of_that_nonconfigure_packet_in_Opened", 5)
+	run.Floor("mismatched_reply_in_Ack-Sent", 50)
+	run.Floor("mismatched_reply_in_Ack-Rcvd", 50)
+	run.Floor("matching_reply_delivered", 1000)
 	stop := make(chan struct{})
 	go watchdog(stop)
 	code := m.Run()
@@ -62,6 +72,7 @@ func watchdog(stop chan struct{}) {
 
 type result struct {
 	fp       string
+	app      map[string]bool // which events of the spec's alphabet are applicable after the sequence
 	nontriv  bool
 	trace    []string
 	lastRec  *evRec
@@ -95,6 +106,10 @@ func execSeq(t *testing.T, sp *spec, seq []ev, judgeFrom int) (res result) {
 			}
 		}
 		res.fp = c.fingerprint()
+		res.app = map[string]bool{}
+		for _, k := range sp.alpha {
+			res.app[k] = c.applicable(k)
+		}
 		res.nontriv = sentReq && moved
 		c.judgeSilence()
 		res.trace = c.trace()
@@ -167,9 +182,13 @@ func TestBFS(t *testing.T) {
 		t.Run(sp.name, func(t *testing.T) {
 			t.Parallel()
 			rng := run.SubRand("bfs-"+sp.name, si)
-			type node struct{ seq []ev }
+			type node struct {
+				seq []ev
+				app map[string]bool
+			}
 			seen := map[string]bool{}
-			frontier := []node{{}}
+			root := execSeq(t, sp, nil, 0)
+			frontier := []node{{nil, root.app}}
 			d := depth
 			if sp.defaults && !run.Thorough() {
 				d = depth - 1 // default-parameter automata (10 retransmissions) one level shallower in the quick tier
@@ -182,7 +201,13 @@ func TestBFS(t *testing.T) {
 				var next []node
 				for _, n := range frontier {
 					for _, k := range sp.alpha {
-						seq := append(append([]ev(nil), n.seq...), ev{Kind: k, Seed: rng.Uint64()})
+						seed := rng.Uint64()
+						if !n.app[k] {
+							// cannot be built in this situation (no such identifier / no pending timer): nothing to execute
+							run.Count("bfs_children_not_applicable", 1)
+							continue
+						}
+						seq := append(append([]ev(nil), n.seq...), ev{Kind: k, Seed: seed})
 						res := execSeq(t, sp, seq, len(seq)-1)
 						execs++
 						if res.lastRec == nil || res.lastRec.NA {
@@ -193,7 +218,7 @@ func TestBFS(t *testing.T) {
 						if !seen[res.fp] {
 							seen[res.fp] = true
 							run.Distinct("fingerprints", sp.name+"|"+res.fp)
-							next = append(next, node{seq})
+							next = append(next, node{seq, res.app})
 							if sampled < 1 && lv >= 4 && res.lastRec.To == "Opened" {
 								sampled++
 								run.Sample(map[string]any{"kind": "bfs", "trace": res.trace})
@@ -249,7 +274,19 @@ func randomSeq(r *rand.Rand, kinds []string, n int) []ev {
 			add("Open")
 		}
 	}
-	hot := []string{"RCR+", "RCAcur", "RCR+", "RCAcur", "RCR-", "RCNcur", "RCJcur", "TO", "RACE:RCAcur", "RACE:RCR+", "RTR", "RTA", "RCRmix", "RCRrej", "RCAstale"}
+	hot := []string{"RCR+", "RCAcur", "RCR+", "RCAcur", "RCR-", "RCNcur", "RCJcur", "TO", "RACE:RCAcur", "RACE:RCR+", "RTR", "RTA", "RCRmix", "RCRrej",
+		"RCAold", "RCAnc", "RCAnc", "RCAnew", "RCNnc", "RCJnc", "UNK", "UNK", "SPR", "SER", "KA"}
+	in := map[string]bool{}
+	for _, k := range kinds {
+		in[k] = true
+	}
+	var h []string
+	for _, k := range hot {
+		if in[k] {
+			h = append(h, k)
+		}
+	}
+	hot = h
 	for len(seq) < n {
 		if r.IntN(10) < 6 {
 			add(hot[r.IntN(len(hot))])
